@@ -27,6 +27,10 @@ pub enum Tree {
     Map(Vec<(Tree, Tree)>),
     UnitVariant(String, String),
     NewtypeVariant(String, String, Box<Tree>),
+    TupleVariant(String, String, Vec<Tree>),
+    StructVariant(String, String, Vec<(String, Tree)>),
+    U128(u128),
+    I128(i128),
 }
 
 impl Tree {
@@ -53,6 +57,12 @@ impl Tree {
             Tree::NewtypeVariant(n, v, t) => {
                 mix(mix(mix(15, hash_str(n)), hash_str(v)), t.digest())
             }
+            Tree::TupleVariant(n, v, ts) => ts.iter().fold(mix(mix(16, hash_str(n)), hash_str(v)), |h, t| mix(h, t.digest())),
+            Tree::StructVariant(n, v, fs) => fs
+                .iter()
+                .fold(mix(mix(17, hash_str(n)), hash_str(v)), |h, (k, t)| mix(mix(h, hash_str(k)), t.digest())),
+            Tree::U128(x) => mix(mix(18, *x as u64), (*x >> 64) as u64),
+            Tree::I128(x) => mix(mix(19, *x as u64), (*x >> 64) as u64),
         }
     }
 
@@ -92,11 +102,11 @@ impl Tree {
         match self {
             Tree::F(b, _) => (1, (!f64::from_bits(*b).is_finite()) as u64),
             Tree::Some(t) | Tree::Newtype(_, t) | Tree::NewtypeVariant(_, _, t) => t.count_floats(),
-            Tree::Seq(v) => v.iter().fold((0, 0), |a, t| {
+            Tree::Seq(v) | Tree::TupleVariant(_, _, v) => v.iter().fold((0, 0), |a, t| {
                 let c = t.count_floats();
                 (a.0 + c.0, a.1 + c.1)
             }),
-            Tree::Struct(_, fs) => fs.iter().fold((0, 0), |a, (_, t)| {
+            Tree::Struct(_, fs) | Tree::StructVariant(_, _, fs) => fs.iter().fold((0, 0), |a, (_, t)| {
                 let c = t.count_floats();
                 (a.0 + c.0, a.1 + c.1)
             }),
@@ -197,6 +207,8 @@ pub fn to_tree_binary<T: Serialize + ?Sized>(v: &T) -> Option<Tree> {
 pub struct TreeSer(pub bool);
 
 pub struct SeqSer(Vec<Tree>, bool);
+pub struct TupleVariantSer(String, String, Vec<Tree>, bool);
+pub struct StructVariantSer(String, String, Vec<(String, Tree)>, bool);
 pub struct StructSer(String, Vec<(String, Tree)>, bool);
 pub struct MapSer(Vec<(Tree, Tree)>, Option<Tree>, bool);
 
@@ -206,10 +218,10 @@ impl ser::Serializer for TreeSer {
     type SerializeSeq = SeqSer;
     type SerializeTuple = SeqSer;
     type SerializeTupleStruct = SeqSer;
-    type SerializeTupleVariant = ser::Impossible<Tree, StoreError>;
+    type SerializeTupleVariant = TupleVariantSer;
     type SerializeMap = MapSer;
     type SerializeStruct = StructSer;
-    type SerializeStructVariant = ser::Impossible<Tree, StoreError>;
+    type SerializeStructVariant = StructVariantSer;
 
     fn is_human_readable(&self) -> bool {
         self.0
@@ -308,12 +320,18 @@ impl ser::Serializer for TreeSer {
     }
     fn serialize_tuple_variant(
         self,
-        _n: &'static str,
+        n: &'static str,
         _i: u32,
-        _v: &'static str,
-        _l: usize,
+        v: &'static str,
+        l: usize,
     ) -> Result<Self::SerializeTupleVariant, StoreError> {
-        Err(StoreError("tuple variants unsupported by SimStore".into()))
+        Ok(TupleVariantSer(n.into(), v.into(), Vec::with_capacity(l), self.0))
+    }
+    fn serialize_i128(self, v: i128) -> Result<Tree, StoreError> {
+        Ok(Tree::I128(v))
+    }
+    fn serialize_u128(self, v: u128) -> Result<Tree, StoreError> {
+        Ok(Tree::U128(v))
     }
     fn serialize_map(self, _len: Option<usize>) -> Result<MapSer, StoreError> {
         Ok(MapSer(Vec::new(), None, self.0))
@@ -323,12 +341,12 @@ impl ser::Serializer for TreeSer {
     }
     fn serialize_struct_variant(
         self,
-        _n: &'static str,
+        n: &'static str,
         _i: u32,
-        _v: &'static str,
-        _l: usize,
+        v: &'static str,
+        l: usize,
     ) -> Result<Self::SerializeStructVariant, StoreError> {
-        Err(StoreError("struct variants unsupported by SimStore".into()))
+        Ok(StructVariantSer(n.into(), v.into(), Vec::with_capacity(l), self.0))
     }
 }
 
@@ -363,6 +381,28 @@ impl ser::SerializeTupleStruct for SeqSer {
     }
     fn end(self) -> Result<Tree, StoreError> {
         Ok(Tree::Seq(self.0))
+    }
+}
+impl ser::SerializeTupleVariant for TupleVariantSer {
+    type Ok = Tree;
+    type Error = StoreError;
+    fn serialize_field<T: ?Sized + Serialize>(&mut self, v: &T) -> Result<(), StoreError> {
+        self.2.push(v.serialize(TreeSer(self.3))?);
+        Ok(())
+    }
+    fn end(self) -> Result<Tree, StoreError> {
+        Ok(Tree::TupleVariant(self.0, self.1, self.2))
+    }
+}
+impl ser::SerializeStructVariant for StructVariantSer {
+    type Ok = Tree;
+    type Error = StoreError;
+    fn serialize_field<T: ?Sized + Serialize>(&mut self, key: &'static str, v: &T) -> Result<(), StoreError> {
+        self.2.push((key.into(), v.serialize(TreeSer(self.3))?));
+        Ok(())
+    }
+    fn end(self) -> Result<Tree, StoreError> {
+        Ok(Tree::StructVariant(self.0, self.1, self.2))
     }
 }
 impl ser::SerializeStruct for StructSer {
@@ -583,6 +623,50 @@ impl<'de> de::VariantAccess<'de> for UnitOnly {
         Err(StoreError("expected unit variant".into()))
     }
 }
+/// tuple / struct variants: the payload is handed over as a plain Seq / Struct tree
+struct CompoundVariantAcc<'de> {
+    name: &'de str,
+    parent: TreeDe<'de>,
+    items: Option<&'de Vec<Tree>>,
+    fields: Option<&'de Vec<(String, Tree)>>,
+}
+impl<'de> de::EnumAccess<'de> for CompoundVariantAcc<'de> {
+    type Error = StoreError;
+    type Variant = Self;
+    fn variant_seed<V: DeserializeSeed<'de>>(self, seed: V) -> Result<(V::Value, Self), StoreError> {
+        let v = seed.deserialize(de::value::BorrowedStrDeserializer::new(self.name))?;
+        Ok((v, self))
+    }
+}
+impl<'de> de::VariantAccess<'de> for CompoundVariantAcc<'de> {
+    type Error = StoreError;
+    fn unit_variant(self) -> Result<(), StoreError> {
+        Err(StoreError("expected a compound variant".into()))
+    }
+    fn newtype_variant_seed<T: DeserializeSeed<'de>>(self, _s: T) -> Result<T::Value, StoreError> {
+        Err(StoreError("expected a compound variant".into()))
+    }
+    fn tuple_variant<V: Visitor<'de>>(self, _l: usize, v: V) -> Result<V::Value, StoreError> {
+        match self.items {
+            Some(items) => v.visit_seq(SeqAcc { items: items.iter(), parent: self.parent, i: 0 }),
+            None => Err(StoreError("expected a tuple variant".into())),
+        }
+    }
+    fn struct_variant<V: Visitor<'de>>(self, _f: &'static [&'static str], v: V) -> Result<V::Value, StoreError> {
+        match self.fields {
+            Some(fs) => {
+                let mut fields: Vec<&'de (String, Tree)> = fs.iter().collect();
+                if self.parent.b.permute_fields {
+                    let mut r = SplitMix::new(mix(self.parent.b.seed, self.parent.depth));
+                    r.shuffle(&mut fields);
+                }
+                v.visit_map(FieldAcc { fields, pos: 0, parent: self.parent })
+            }
+            None => Err(StoreError("expected a struct variant".into())),
+        }
+    }
+}
+
 struct NewtypeVariantAcc<'de>(&'de str, TreeDe<'de>);
 impl<'de> de::EnumAccess<'de> for NewtypeVariantAcc<'de> {
     type Error = StoreError;
@@ -741,6 +825,14 @@ impl<'de> de::Deserializer<'de> for TreeDe<'de> {
             Tree::NewtypeVariant(_, var, t) => {
                 v.visit_enum(NewtypeVariantAcc(var, self.child(t, 9)))
             }
+            Tree::TupleVariant(_, var, items) => {
+                v.visit_enum(CompoundVariantAcc { name: var, parent: self.child(self.t, 10), items: Some(items), fields: None })
+            }
+            Tree::StructVariant(_, var, fs) => {
+                v.visit_enum(CompoundVariantAcc { name: var, parent: self.child(self.t, 11), items: None, fields: Some(fs) })
+            }
+            Tree::U128(x) => v.visit_u128(*x),
+            Tree::I128(x) => v.visit_i128(*x),
         }
     }
 
